@@ -151,14 +151,18 @@ class JobControl:
         return result
 
     def stop_current(self) -> bool:
-        if self._active_agent is not None and self._active_agent.is_running():
-            if self._acquire_lock():
-                try:
+        # The test has to be made with the lock held: without it, the active
+        # job could finish, or a job that had just been taken from the queue
+        # could still be without its thread, between the test and the request.
+        result = False
+        if self._acquire_lock():
+            try:
+                if self._active_agent is not None:
                     self._active_agent.request_stop()
-                finally:
-                    self._release_lock()
-                return True
-        return False
+                    result = True
+            finally:
+                self._release_lock()
+        return result
 
     def has_jobs(self) -> bool:
         return (len(self._queue) > 0 or len(self._background) > 0 or
